@@ -231,6 +231,55 @@ def _validate_impedances_semantics(ctx: Ctx, vi) -> Optional[List[str]]:
     return problems
 
 
+def _reset_defaults_semantics(ctx: Ctx, rdp) -> Optional[List[str]]:
+    """reset_default_parameter_values interpreted (sa.miniinterp) on a stand-in registry: two built-in classes (one
+    private) with distinct snapshots and one user class.  Demanded: every selected built-in receives exactly its own
+    import-time snapshot through set_default_values, no other class is written.  None when outside the interpreter's subset."""
+    from ..miniinterp import InterpRaise, Mini, module_globals
+    problems: List[str] = []
+
+    class El:
+        _symbol = ""
+        _log: List[dict] = []
+
+        @classmethod
+        def get_symbol(cls):
+            return cls._symbol
+
+        @classmethod
+        def set_default_values(cls, *a, **kw):
+            cls._log.append(dict(*a, **kw))
+
+    def mk(name, sym):
+        return type(name, (El,), {"_symbol": sym, "_log": []})
+    for pick in ("all", "R", "K", "[R]", "[K]", "[R,K]", "[K,R]", "U", "[U,K]"):
+        Rb, Kb, Ua = mk("BuiltinR", "R"), mk("BuiltinK", "K"), mk("UserU", "U")
+        byname = {"R": Rb, "K": Kb, "U": Ua}
+        snapshot = {"R": {"R": 1.0}, "K": {"tau": 2.0, "R": 3.0}}
+        arg = None if pick == "all" else ([byname[x] for x in pick.strip("[]").split(",")] if pick.startswith("[") else byname[pick])
+        chosen = [Rb, Kb] if arg is None else (arg if isinstance(arg, list) else [arg])
+        st = {"_DEFAULT_ELEMENTS": {"R": Rb, "K": Kb}, "_ELEMENTS": {"R": Rb, "K": Kb, "U": Ua}, "_PRIVATE_ELEMENTS": {"K": Kb},
+              "_DEFAULT_ELEMENT_PARAMETERS": {k: dict(v) for k, v in snapshot.items()}, "Element": El,
+              "_is_boolean": lambda x: isinstance(x, bool), "_is_integer": lambda x: isinstance(x, int) and not isinstance(x, bool), "_is_string": lambda x: isinstance(x, str)}
+        g = module_globals(ctx.repo.modules[REG].tree, st)
+        g.update(st)
+        try:
+            Mini(g, max_steps=100000).call_function(rdp.node, {rdp.node.args.args[0].arg: (list(arg) if isinstance(arg, list) else arg)})
+        except InterpRaise as e:
+            problems.append(f"reset_default_parameter_values({pick}) raises {e.kind}")
+            continue
+        except AnalysisError:
+            return None
+        for sym, cls in byname.items():
+            want = [snapshot[sym]] if (cls in chosen and sym in snapshot) else []
+            got = cls._log
+            if (want and (not got or any(x != want[0] for x in got))) or (not want and got):
+                problems.append(f"reset_default_parameter_values({pick}): {cls.__name__} receives {got} instead of {want}")
+        if st["_DEFAULT_ELEMENT_PARAMETERS"] != snapshot:
+            problems.append(f"reset_default_parameter_values({pick}) changes the import-time snapshot")
+    return problems
+
+
 def check(ctx: Ctx) -> None:
     model = get_model(ctx.repo)
     ctx.modules_consulted.update({REG, TOK, PARSER, "pyimpspec.circuit.elements", "pyimpspec.circuit.base"})
@@ -301,6 +350,12 @@ def check(ctx: Ctx) -> None:
     snap = [n for n in walk_ordered(ini.node) if isinstance(n, ast.Assign) and norm(n.targets[0]).startswith("_DEFAULT_ELEMENT_PARAMETERS[")]
     restores = [c for c in calls_in(rdp.node) if isinstance(c.func, ast.Attribute) and c.func.attr == "set_default_values"
                 and any(k.arg is None and "_DEFAULT_ELEMENT_PARAMETERS[" in norm(k.value) for k in c.keywords)]
+    sem_rd = _reset_defaults_semantics(ctx, rdp)
+    if sem_rd is not None:
+        # the restore side decided by interpretation (9 selections over a stand-in registry); the write set and the snapshot by shape
+        restores = not sem_rd
+    if sem_rd:
+        ctx.note("reset_default_parameter_values interpreted: " + sem_rd[0] + (f" (+{len(sem_rd) - 1} more)" if len(sem_rd) > 1 else ""))
     if written == {"_parameter_default_value"} and snap and "get_default_values()" in norm(snap[0].value) and restores \
             and any(dotted(c.func) == "reset_default_parameter_values" for c in calls_in(rst.node)):
         ctx.ok()
